@@ -324,71 +324,88 @@ func runC19(c *Ctx) {
 		// Accepted idioms: Split(x,"@") with a `len(parts) != 2` rejection; Count(x,"@") != 1 rejection; Cut/Index with a
 		// Contains(part,"@") rejection of both parts.
 		oneAt, how := false, "no idiom recognised"
-		var splitVar types.Object
+		// the entry parser may live in a helper of the package (`splitRemoteToken`): its body is read as well
+		bodies := []*ast.BlockStmt{fr.Decl.Body}
 		ast.Inspect(fr.Decl.Body, func(n ast.Node) bool {
-			if as, ok := n.(*ast.AssignStmt); ok && len(as.Lhs) == 1 && len(as.Rhs) == 1 {
-				if call, ok := ast.Unparen(as.Rhs[0]).(*ast.CallExpr); ok {
-					if fn := Callee(info, call); fn != nil && fn.Pkg() != nil && fn.Pkg().Path() == "strings" && fn.Name() == "Split" && len(call.Args) == 2 {
-						if s, ok := stringLit(info, call.Args[1]); ok && s == "@" {
-							splitVar = identObj(info, as.Lhs[0])
-						}
+			if call, ok := n.(*ast.CallExpr); ok {
+				if fn := Callee(info, call); fn != nil && fn.Pkg() == fr.Pkg.Types {
+					if hf := p.Func(relPkg(fr.Pkg.PkgPath), fn.Name()); hf != nil && hf.Decl.Body != nil && hf != fr {
+						bodies = append(bodies, hf.Decl.Body)
 					}
 				}
 			}
 			return true
 		})
-		ast.Inspect(fr.Decl.Body, func(n ast.Node) bool {
-			ifs, ok := n.(*ast.IfStmt)
-			if !ok || len(ifs.Body.List) == 0 {
-				return true
+		for _, body := range bodies {
+			if oneAt {
+				break
 			}
-			r, isRet := ifs.Body.List[len(ifs.Body.List)-1].(*ast.ReturnStmt)
-			if !isRet || classifyReturn(info, r) != retNonNil {
-				return true
-			}
-			be, ok := ast.Unparen(ifs.Cond).(*ast.BinaryExpr)
-			if !ok || be.Op != token.NEQ {
-				return true
-			}
-			call, ok := ast.Unparen(be.X).(*ast.CallExpr)
-			if !ok {
-				return true
-			}
-			tv := info.Types[be.Y]
-			if id, ok := call.Fun.(*ast.Ident); ok && id.Name == "len" && len(call.Args) == 1 && splitVar != nil && identObj(info, call.Args[0]) == splitVar && tv.Value != nil && tv.Value.ExactString() == "2" {
-				oneAt, how = true, "strings.Split(entry, \"@\") and len(parts) != 2 is an error"
-			}
-			if fn := Callee(info, call); fn != nil && fn.Pkg() != nil && fn.Pkg().Path() == "strings" && fn.Name() == "Count" && len(call.Args) == 2 && tv.Value != nil && tv.Value.ExactString() == "1" {
-				if s, ok := stringLit(info, call.Args[1]); ok && s == "@" {
-					oneAt, how = true, "strings.Count(entry, \"@\") != 1 is an error"
-				}
-			}
-			return true
-		})
-		if !oneAt {
-			// Cut / Index idiom: every string stored as key or value is rejected when it contains "@"
-			rejects := 0
-			ast.Inspect(fr.Decl.Body, func(n ast.Node) bool {
-				ifs, ok := n.(*ast.IfStmt)
-				if !ok || len(ifs.Body.List) == 0 {
-					return true
-				}
-				if r, isRet := ifs.Body.List[len(ifs.Body.List)-1].(*ast.ReturnStmt); !isRet || classifyReturn(info, r) != retNonNil {
-					return true
-				}
-				for _, t := range splitOr(ifs.Cond) {
-					if call, ok := ast.Unparen(t).(*ast.CallExpr); ok && len(call.Args) == 2 {
-						if fn := Callee(info, call); fn != nil && fn.Pkg() != nil && fn.Pkg().Path() == "strings" && (fn.Name() == "Contains" || fn.Name() == "ContainsRune") {
+			var splitVar types.Object
+			ast.Inspect(body, func(n ast.Node) bool {
+				if as, ok := n.(*ast.AssignStmt); ok && len(as.Lhs) == 1 && len(as.Rhs) == 1 {
+					if call, ok := ast.Unparen(as.Rhs[0]).(*ast.CallExpr); ok {
+						if fn := Callee(info, call); fn != nil && fn.Pkg() != nil && fn.Pkg().Path() == "strings" && fn.Name() == "Split" && len(call.Args) == 2 {
 							if s, ok := stringLit(info, call.Args[1]); ok && s == "@" {
-								rejects++
+								splitVar = identObj(info, as.Lhs[0])
 							}
 						}
 					}
 				}
 				return true
 			})
-			if rejects >= 2 {
-				oneAt, how = true, "both parts are rejected when they contain \"@\""
+			ast.Inspect(body, func(n ast.Node) bool {
+				ifs, ok := n.(*ast.IfStmt)
+				if !ok || len(ifs.Body.List) == 0 {
+					return true
+				}
+				r, isRet := ifs.Body.List[len(ifs.Body.List)-1].(*ast.ReturnStmt)
+				if !isRet || classifyReturn(info, r) != retNonNil {
+					return true
+				}
+				be, ok := ast.Unparen(ifs.Cond).(*ast.BinaryExpr)
+				if !ok || be.Op != token.NEQ {
+					return true
+				}
+				call, ok := ast.Unparen(be.X).(*ast.CallExpr)
+				if !ok {
+					return true
+				}
+				tv := info.Types[be.Y]
+				if id, ok := call.Fun.(*ast.Ident); ok && id.Name == "len" && len(call.Args) == 1 && splitVar != nil && identObj(info, call.Args[0]) == splitVar && tv.Value != nil && tv.Value.ExactString() == "2" {
+					oneAt, how = true, "strings.Split(entry, \"@\") and len(parts) != 2 is an error"
+				}
+				if fn := Callee(info, call); fn != nil && fn.Pkg() != nil && fn.Pkg().Path() == "strings" && fn.Name() == "Count" && len(call.Args) == 2 && tv.Value != nil && tv.Value.ExactString() == "1" {
+					if s, ok := stringLit(info, call.Args[1]); ok && s == "@" {
+						oneAt, how = true, "strings.Count(entry, \"@\") != 1 is an error"
+					}
+				}
+				return true
+			})
+			if !oneAt {
+				// Cut / Index idiom: every string stored as key or value is rejected when it contains "@"
+				rejects := 0
+				ast.Inspect(body, func(n ast.Node) bool {
+					ifs, ok := n.(*ast.IfStmt)
+					if !ok || len(ifs.Body.List) == 0 {
+						return true
+					}
+					if r, isRet := ifs.Body.List[len(ifs.Body.List)-1].(*ast.ReturnStmt); !isRet || classifyReturn(info, r) != retNonNil {
+						return true
+					}
+					for _, t := range splitOr(ifs.Cond) {
+						if call, ok := ast.Unparen(t).(*ast.CallExpr); ok && len(call.Args) == 2 {
+							if fn := Callee(info, call); fn != nil && fn.Pkg() != nil && fn.Pkg().Path() == "strings" && (fn.Name() == "Contains" || fn.Name() == "ContainsRune") {
+								if s, ok := stringLit(info, call.Args[1]); ok && s == "@" {
+									rejects++
+								}
+							}
+						}
+					}
+					return true
+				})
+				if rejects >= 2 {
+					oneAt, how = true, "both parts are rejected when they contain \"@\""
+				}
 			}
 		}
 		c.Ob("PARSE-ALL-OR-NOTHING", "newMultipleTokenProvider/exactly-one-at", fr.Decl.Pos(), oneAt, true, "an entry with more than one '@' is rejected: %s", how)
@@ -594,7 +611,27 @@ func c19MakeSameAddress(c *Ctx) {
 			return false
 		}
 		fa, ok := u.X.(*ssa.FieldAddr)
-		return ok && strings.HasSuffix(fieldName(fa.X.Type(), fa.Field), "connectclient.Config."+field)
+		if !ok || !strings.Contains(fieldName(fa.X.Type(), fa.Field), "connectclient.Config.") {
+			return false
+		}
+		// the two function-valued members of Config are told apart by their types, not their names: the address
+		// mapper is func(string) string, the interceptor provider is func(string) <interceptor>
+		sig, ok := u.Type().Underlying().(*types.Signature)
+		if !ok || sig.Params().Len() != 1 || sig.Results().Len() != 1 {
+			return false
+		}
+		if pb, ok := sig.Params().At(0).Type().Underlying().(*types.Basic); !ok || pb.Kind() != types.String {
+			return false
+		}
+		rb, resIsString := sig.Results().At(0).Type().Underlying().(*types.Basic)
+		resIsString = resIsString && rb.Kind() == types.String
+		switch field {
+		case "addressMapper":
+			return resIsString
+		case "authInterceptorProvider":
+			return !resIsString
+		}
+		return false
 	}
 	var addr *ssa.Parameter
 	for _, prm := range smk.Params {
